@@ -104,9 +104,11 @@ IDENTITY_CALLS = {
     "tf.cast", "tf.convert_to_tensor", "tf.identity", "tf.stop_gradient", "np.array", "np.asarray", "float",
     "tf.constant", "tf.squeeze", "np.float64", "tf.Variable", "to_complex", "tf.math.real_if_close",
 }
+# sympy expressions that are truth values (a Symbol is NOT one although sympy makes it a Boolean subclass)
+_BOOL_EXPR = (sp.logic.boolalg.BooleanAtom, sp.core.relational.Relational, sp.And, sp.Or, sp.Not)
 UNARY_FUNCS = {
     "sqrt": sp.sqrt, "sin": sp.sin, "cos": sp.cos, "tan": sp.tan, "exp": sp.exp, "log": sp.log,
-    "abs": sp.Abs, "fabs": sp.Abs, "atan": sp.atan, "asin": sp.asin, "acos": sp.acos, "sinh": sp.sinh, "cosh": sp.cosh,
+    "abs": sp.Abs, "fabs": sp.Abs, "absolute": sp.Abs, "atan": sp.atan, "asin": sp.asin, "acos": sp.acos, "sinh": sp.sinh, "cosh": sp.cosh,
     "tanh": sp.tanh, "square": lambda x: x * x, "real": sp.re, "imag": sp.im, "conj": sp.conjugate, "conjugate": sp.conjugate,
     "negative": lambda x: -x, "reciprocal": lambda x: 1 / x, "rsqrt": lambda x: 1 / sp.sqrt(x),
 }
@@ -294,7 +296,11 @@ class Translator:
             r = None
             try:
                 try:
-                    r = self.exec_body(st.body, env, mod, depth)
+                    self._try_depth = getattr(self, "_try_depth", 0) + (1 if st.handlers else 0)
+                    try:
+                        r = self.exec_body(st.body, env, mod, depth)
+                    finally:
+                        self._try_depth -= 1 if st.handlers else 0
                 except Raised as e:
                     for h in st.handlers:
                         names = [] if h.type is None else [ast.unparse(x).split(".")[-1] for x in (h.type.elts if isinstance(h.type, ast.Tuple) else [h.type])]
@@ -304,6 +310,8 @@ class Translator:
                             r = self.exec_body(h.body, env, mod, depth)
                             break
                     else:
+                        if not self.hooks.get("allow_raise") and getattr(self, "_try_depth", 0) == 0:
+                            raise Unmodelled("exception leaves the function: %s" % e)
                         raise
                 else:
                     if r is None and st.orelse:
@@ -469,7 +477,8 @@ class Translator:
             return False
         if is_sym(v):
             if v.is_number:
-                return bool(v != 0)
+                z = v.is_zero   # (Float(0.0) != 0 is a structural comparison in sympy and would be True)
+                return (not z) if z is not None else complex(v) != 0
             d = self.where_policy(v, self)
             if d is not None:
                 return d
@@ -585,6 +594,8 @@ class Translator:
                 if k not in obj:
                     if self.hooks.get("allow_raise"):
                         raise Raised("KeyError: %r in `%s`" % (k, ast.unparse(n)))
+                    if self.hooks.get("allow_raise") or getattr(self, "_try_depth", 0) > 0:
+                        raise Raised("KeyError: %r" % (k,))   # as in Python; an enclosing try / except KeyError sees it
                     raise Unmodelled("key %r not in literal dict" % (k,))
                 return obj[k]
             hook = self.hooks.get("subscript")
@@ -913,6 +924,11 @@ class Translator:
             return False if name == "isEnabledFor" else None
         if isinstance(obj, np.ndarray) and name == "copy" and not args:
             return obj.copy()
+        if isinstance(obj, np.ndarray) and name == "reshape" and args:
+            shp_ = args[0] if len(args) == 1 and isinstance(args[0], (list, tuple)) else args
+            return obj.reshape(tuple(_pyint(x) for x in shp_))
+        if isinstance(obj, np.ndarray) and name == "astype":
+            return obj
         if isinstance(obj, np.ndarray) and name == "tolist" and not args:
             return obj.tolist()
         if isinstance(obj, (list, str, tuple)) and name == "index":
@@ -921,11 +937,24 @@ class Translator:
             return obj.format(*[str(a) for a in args], **{k: str(v) for k, v in kwargs.items()})
         if isinstance(obj, str) and name == "join" and len(args) == 1 and isinstance(args[0], (list, tuple)) and all(isinstance(x, str) for x in args[0]):
             return obj.join(str(x) for x in args[0])
-        if isinstance(obj, str) and name in ("split", "startswith", "endswith", "strip", "lstrip", "rstrip", "lower", "upper", "replace") and all(isinstance(x, (str, int)) for x in args):
-            return getattr(str(obj), name)(*args)
+        if isinstance(obj, str) and name in ("split", "rsplit", "partition", "rpartition", "startswith", "endswith", "strip", "lstrip", "rstrip", "lower", "upper", "replace", "isdigit", "find", "rfind", "index", "count") and all(isinstance(x, (str, int)) or (is_sym(x) and x.is_Integer) for x in args):
+            return getattr(str(obj), name)(*[int(x) if is_sym(x) else x for x in args])
         if isinstance(obj, PySet):
             if name in ("add", "discard"):
                 getattr(obj, name)(args[0])
+                return None
+            if name in ("intersection_update", "difference_update", "symmetric_difference_update"):
+                others = [_pykey(x) for a in args for x in list(a)]
+                cur = list(obj)
+                if name == "intersection_update":
+                    keep_ = [x for x in cur if all(x in [_pykey(y) for y in list(a)] for a in args)]
+                elif name == "difference_update":
+                    keep_ = [x for x in cur if x not in others]
+                else:
+                    keep_ = [x for x in cur if x not in others] + [x for x in others if x not in cur]
+                del obj[:]
+                for x in keep_:
+                    obj.add(x)
                 return None
             if name == "remove":
                 if _pykey(args[0]) not in obj:
@@ -1049,6 +1078,11 @@ class Translator:
                 return sp.Integer(int(a0))
             if isinstance(a0, (int, float)):
                 return sp.Integer(int(a0))
+            if isinstance(a0, str):
+                try:
+                    return sp.Integer(int(a0))
+                except ValueError:
+                    raise Raised("ValueError: invalid literal for int(): %r" % a0)
             raise Unmodelled("int() of symbolic value")
         if name in ("float", "complex"):
             return num(a0) if not is_sym(a0) else a0
@@ -1154,6 +1188,9 @@ class Translator:
         if name == "map" and len(args) >= 2:
             seqs = [list(x) for x in args[1:]]
             return [self.apply(a0, list(items), {}, n, 0) for items in zip(*seqs)]
+        if name == "filter" and len(args) == 2:
+            keep = (lambda x_: self.truth(x_, n)) if a0 is None else (lambda x_: self.truth(self.apply(a0, [x_], {}, n, 0), n))
+            return [x_ for x_ in list(args[1]) if keep(x_)]
         if name == "zip":
             return list(zip(*[list(x) for x in args]))
         if name == "dict":
@@ -1236,9 +1273,19 @@ class Translator:
             return None
         if name == "bool":
             return self.truth(a0, n)
+        if name == "dict.fromkeys" and 1 <= len(args) <= 2:
+            return {_pykey(k_): (args[1] if len(args) > 1 else None) for k_ in list(a0)}
         raise Unmodelled("builtin %s" % name)
 
     def numeric_call(self, d, last, args, kwargs, n):
+        if not args and kwargs and d.split(".")[0] in ("tf", "np", "tensorflow", "numpy"):
+            # the first parameter of a tf / np function given by keyword (tf.cast(x=..), tf.concat(values=..),
+            # tf.clip_by_value(t=..)): the same call with that argument in first position
+            for first in ("x", "t", "a", "value", "values", "tensor", "input", "input_tensor", "tensors"):
+                if first in kwargs:
+                    kwargs = dict(kwargs)
+                    args = [kwargs.pop(first)]
+                    break
         if d in ("logging.getLogger", "getLogger"):
             return Opaque("logger")
         if d in ("functools.partial", "partial") and args:
@@ -1311,6 +1358,24 @@ class Translator:
                 return self.apply(fn_, list(parts), {}, n, 0)
 
             return rec(list(structs))
+        if last == "cast" and len(args) >= 1:
+            # a boolean mask cast to a number: True -> 1, False -> 0 (element-wise)
+            def _num_of_bool(v):
+                if isinstance(v, bool) or v is sp.true or v is sp.false:
+                    return sp.Integer(1 if bool(v) else 0)
+                if isinstance(v, _BOOL_EXPR):
+                    try:
+                        return sp.Integer(1 if self.truth(v, n) else 0)
+                    except Unmodelled:
+                        return sp.Piecewise((sp.Integer(1), v), (sp.Integer(0), True))
+                return v
+            if isinstance(args[0], np.ndarray) and args[0].size and any(isinstance(v, (bool,) + _BOOL_EXPR) for v in args[0].reshape(-1)):
+                out_ = np.empty(args[0].shape, dtype=object)
+                for i_ in np.ndindex(args[0].shape):
+                    out_[i_] = _num_of_bool(args[0][i_])
+                return out_
+            if isinstance(args[0], (bool,) + _BOOL_EXPR):
+                return _num_of_bool(args[0])
         r = self.array_call(d, last, args, kwargs, n)
         if r is not NotImplemented:
             return r
@@ -1329,6 +1394,14 @@ class Translator:
             if isinstance(shp, (list, tuple)) and all((is_sym(x) and x.is_Integer) or isinstance(x, int) for x in shp):
                 out = np.empty(tuple(int(x) for x in shp), dtype=object)
                 out.fill(sp.Integer(0 if last == "zeros" else 1))
+                return out
+        if last == "full" and self.hooks.get("concrete_zeros") and len(args) >= 2:
+            shp = a0
+            if (is_sym(shp) and shp.is_Integer) or (isinstance(shp, int) and not isinstance(shp, bool)):
+                shp = [shp]
+            if isinstance(shp, (list, tuple)) and all((is_sym(x) and x.is_Integer) or isinstance(x, int) for x in shp):
+                out = np.empty(tuple(int(x) for x in shp), dtype=object)
+                out.fill(_s(args[1]))
                 return out
         if last in ("zeros_like", "zeros"):
             return sp.Integer(0)
@@ -1380,6 +1453,11 @@ class Translator:
         if last in ("Fraction",):
             return sp.Rational(_pyint(args[0]), _pyint(args[1]) if len(args) > 1 else 1)
         if last in ("Symbol", "symbols"):
+            if last == "symbols" and isinstance(a0, str) and len(a0.replace(",", " ").split()) > 1:
+                out_ = tuple(sp.Symbol(t_) for t_ in a0.replace(",", " ").split())
+                _OBJECT_SYMBOLS.update(out_)   # sympy symbols the interpreted code itself creates: objects, not unknown data
+                return out_
+            _OBJECT_SYMBOLS.add(sp.Symbol(str(a0)))
             return sp.Symbol(str(a0))
         hook = self.hooks.get("numeric_call")
         if hook:
@@ -1395,12 +1473,16 @@ class Translator:
 
         def ax(default=None, pos=1):
             v = axis if axis is not None else (args[pos] if len(args) > pos else default)
+            if isinstance(v, np.ndarray) and v.ndim == 1:
+                v = list(v)   # axis=tf.range(1, tf.rank(x)): a 1-d tensor of axes
             if isinstance(v, (list, tuple)):
                 return tuple(_pyint(x) for x in v)  # reduction over several axes
             return None if v is None else _pyint(v)
 
         if last == "copy" and d.split(".")[0] in ("np", "numpy") and isinstance(a0, np.ndarray):
             return a0.copy()
+        if last in ("rank", "ndim") and isinstance(a0, np.ndarray):
+            return sp.Integer(a0.ndim)
         if last in ("reduce_sum", "sum") and isinstance(a0, (list, tuple)) and not a0 and not isinstance(a0, np.ndarray):
             return sp.Integer(0)   # the sum over an empty list of parts
         if last in ("reduce_sum", "sum") and isinstance(a0, (list, tuple)) and a0 and all(is_sym(x) or isinstance(x, (int, float)) for x in a0) and ax(None) in (0, None):
@@ -1435,11 +1517,23 @@ class Translator:
             return np.stack([as_arr(x) for x in a0], axis=ax(0))
         if last == "eye":
             k = _pyint(a0)
-            out = np.empty((k, k), dtype=object)
+            k2 = args[1] if len(args) > 1 else kwargs.get("M", kwargs.get("num_columns"))
+            k2 = k if k2 is None else _pyint(k2)
+            out = np.empty((k, k2), dtype=object)
             for i in range(k):
-                for j in range(k):
+                for j in range(k2):
                     out[i, j] = sp.Integer(1 if i == j else 0)
             return out
+        if last == "array" and d.split(".")[0] in ("np", "numpy") and isinstance(a0, (list, tuple)) and not isinstance(a0, np.ndarray) and a0 and all(isinstance(r_, (list, tuple)) for r_ in a0) and (self.hooks.get("concrete_zeros") or self.hooks.get("stack_as_array")):
+            try:
+                arr_ = np.array(a0, dtype=object)
+            except ValueError:
+                arr_ = None
+            if arr_ is not None and arr_.ndim >= 2 and all(is_sym(v_) or isinstance(v_, (int, float)) for v_ in arr_.reshape(-1)):
+                out_ = np.empty(arr_.shape, dtype=object)
+                for i_ in np.ndindex(arr_.shape):
+                    out_[i_] = _s(arr_[i_])
+                return out_
         if last == "reshape" and self.hooks.get("concrete_zeros") and is_sym(a0) and len(args) > 1 and isinstance(args[1], (list, tuple)):
             # a scalar tensor component reshaped to (-1, 1) etc.: one event
             shp = [_pyint(x) for x in args[1]]
@@ -1510,6 +1604,13 @@ class Translator:
 
     # ------------------------------------------------------------ operators
     def binop(self, op, a, b):
+        try:
+            return self._binop(op, a, b)
+        except TypeError as e:
+            # e.g. a sympy relational added to a symbol (tf.cast(mask, dtype) modelled as the identity): not a model
+            raise Unmodelled("arithmetic on %s and %s: %s" % (type(a).__name__, type(b).__name__, e))
+
+    def _binop(self, op, a, b):
         if isinstance(op, (ast.BitAnd, ast.BitOr)) and _boolish(a) and _boolish(b) and (is_arr(a) or is_arr(b) or is_sym(a) or is_sym(b)):
             f = sp.And if isinstance(op, ast.BitAnd) else sp.Or  # element-wise mask algebra
             if is_arr(a) or is_arr(b):
@@ -1623,6 +1724,11 @@ class Translator:
                 return r if isinstance(op, ast.In) else not r
             raise Unmodelled("membership in symbolic value")
         if isinstance(op, (ast.Is, ast.IsNot)):
+            # type(x) is dict: the builtin types are singletons, `is` and `==` agree on them
+            for x_, y_ in ((a, b), (b, a)):
+                if isinstance(x_, PyFunc) and str(getattr(x_, "name", "")).startswith("type:") and isinstance(y_, Opaque) and y_.name.startswith("builtin."):
+                    r_ = x_.name[5:] == y_.name[8:]
+                    return r_ if isinstance(op, ast.Is) else not r_
             r = (a is b) or (a is None and b is None)
             if a is None or b is None:
                 r = a is None and b is None
@@ -1769,8 +1875,13 @@ def _pyplain(x):
     return False
 
 
+_OBJECT_SYMBOLS = set()
+
+
 def _pykey(x):
     if is_sym(x):
+        if x in _OBJECT_SYMBOLS:
+            return x
         if x.is_Integer:
             return int(x)
         if x.is_number:
